@@ -749,7 +749,7 @@ func (e *Engine) havocAll(st *State) {
 		if !ok {
 			continue
 		}
-		if k == LKInt {
+		if k == LKInt || k == LKSlLen || k == LKSlCap || k == LKSlOff {
 			if ax := e.rangeAxiom(cl, h); ax != nil {
 				e.assumeQuiet(st, ax)
 			}
